@@ -17,6 +17,7 @@ import tlcgraph  # noqa: E402
 import obsmon  # noqa: E402
 
 MH = os.path.join(ROOT, "harness", "target", "debug", "mh")
+XH = os.path.join(ROOT, "harness", "target", "debug", "xh")
 WORKERS = int(os.environ.get("VERIF_WORKERS", "12"))
 
 
@@ -28,9 +29,9 @@ def log(*a):
     print(*a, flush=True)
 
 
-def build_harness():
+def build_harness(pkg="mh"):
     t0 = time.time()
-    p = subprocess.run(["cargo", "build", "--offline", "-p", "mh"], cwd=os.path.join(ROOT, "harness"),
+    p = subprocess.run(["cargo", "build", "--offline", "-p", pkg], cwd=os.path.join(ROOT, "harness"),
                        capture_output=True, text=True)
     if p.returncode != 0:
         sys.stderr.write(p.stdout[-3000:] + p.stderr[-6000:])
@@ -71,6 +72,8 @@ KINDS = {
     "managed": {"spec": "ManagedPool.tla", "monitor": "ManagedObs.tla", "base": configs.BASE, "hcfg": tlcgraph.harness_cfg},
     "unmanaged": {"spec": "UnmanagedPool.tla", "monitor": "UnmanagedObs.tla", "base": configs.UBASE,
                   "hcfg": tlcgraph.harness_cfg_unmanaged},
+    "syncmgr": {"spec": "SyncManagers.tla", "monitor": "SyncMgrObs.tla", "base": configs.MBASE, "hcfg": tlcgraph.harness_cfg_syncmgr,
+                "binary": "xh"},
     "sync": {"spec": "SyncWrapper.tla", "monitor": "SyncObs.tla", "base": configs.SBASE, "hcfg": tlcgraph.harness_cfg_sync},
 }
 
@@ -147,7 +150,7 @@ def run_config(pid, name, consts, invariants, actprops, workdir, obs_sample, rep
     res_file = os.path.join(workdir, name + ".result.json")
     obs_file = os.path.join(workdir, name + ".obs.ndjson")
     t0 = time.time()
-    p = subprocess.run([MH, "replay", paths_file, "--result", res_file, "--obs", obs_file, "--threads", str(threads or WORKERS),
+    p = subprocess.run([XH if K.get("binary") == "xh" else MH, "replay", paths_file, "--result", res_file, "--obs", obs_file, "--threads", str(threads or WORKERS),
                         "--obs-sample", str(obs_sample)], capture_output=True, text=True)
     if p.returncode != 0 or not os.path.exists(res_file):
         sys.stderr.write(p.stdout[-2000:] + p.stderr[-4000:])
@@ -222,7 +225,8 @@ def managed_check(pid, tier, seed):
     workdir = os.path.join(ROOT, "work", "%s_%s" % (pid, tier))
     shutil.rmtree(workdir, ignore_errors=True)
     os.makedirs(workdir)
-    build_s = build_harness()
+    uses_xh = spec.get("kind") in ("syncmgr",) or spec.get("xh")
+    build_s = build_harness("xh" if uses_xh else "mh")
     infos = []
     violations = []   # (config, pred, run, i)
     for entry in spec["configs"][tier]:
@@ -239,7 +243,7 @@ def managed_check(pid, tier, seed):
         kind = opts.get("kind", spec.get("kind", "managed"))
         struct = configs.STRUCT if kind == "managed" else configs.USTRUCT
         preds = opts.get("preds", spec["preds"])
-        threads = 4 if kind == "sync" else None
+        threads = 4 if kind in ("sync", "syncmgr") else None
         log("[%s] config %s: TLC%s ..." % (pid, name, " + tour + replay" if replay else " (model checking only)"))
         info = run_config(pid, name, consts, struct + opts.get("invariants", spec["invariants"]), opts.get("actprops", spec["actprops"]),
                           workdir, obs_sample=spec.get("obs_sample", {}).get(tier, 50), replay=replay, kind=kind,
